@@ -147,6 +147,7 @@ class Validator(object):
                     ref = load_reference(el.name, el.classname, el.version)
                 except ChildNotFound:
                     errs.append(ValidationError("Invalid element found: {}".format(el)))
+                    return
 
             if ref[0] in ('sequence', 'choice'):
                 element_children = {c.name for c in el.children if not c.is_z_element()}
